@@ -81,7 +81,7 @@ class Bounds:
         for (bb, d, taken, vals) in path.conds:
             if path.blocks.index(bb) >= path.blocks.index(upto_bb) if (bb in path.blocks and upto_bb in path.blocks) else False:
                 break
-            e = n(d)
+            e = pn(S, d)
             truth = (taken == "otherwise") if vals == [0] else (bool(taken) if taken != "otherwise" else None)
             if truth is None or e[0] != "bin":
                 continue
@@ -121,6 +121,48 @@ class Bounds:
 
 
 LENOF = [None]
+TABLES = [None]
+FALLBACK_ITER = [{}]
+ITER = [None]  # local -> normalised expression that constructed the iterator held in that local
+
+
+def iter_components(e):
+    """Components of an iterator construction: list of ('chunk', slice_expr, k, exact) / ('elem', slice_expr)."""
+    if e is None:
+        return None
+    if e[0] == "call":
+        nm = e[1].rsplit("::", 1)[-1]
+        a = e[2]
+        if nm in ("into_iter", "rev", "enumerate", "by_ref") and a:
+            return iter_components(a[0])
+        if nm == "zip" and len(a) == 2:
+            x, y = iter_components(a[0]), iter_components(a[1])
+            if x is None or y is None or len(x) != 1 or len(y) != 1:
+                return None
+            return [("zip", x[0], y[0])]
+        if nm in ("chunks_exact", "chunks_exact_mut") and len(a) == 2 and a[1][0] == "const":
+            return [("chunk", a[0], a[1][1], True)]
+        if nm in ("chunks_mut", "chunks") and len(a) == 2 and a[1][0] == "const":
+            return [("chunk", a[0], a[1][1], False)]
+        if nm in ("iter", "iter_mut") and a:
+            return [("elem", a[0])]
+    return None
+
+
+def item_component(e):
+    """If e denotes (a projection of) the item yielded by `next(&mut it)`: (iterator local, [field indices])."""
+    idx = []
+    x = e
+    while x[0] == "field":
+        idx.append(x[2])
+        x = x[1]
+    idx.reverse()
+    if x[0] == "variant" and x[2] == "Some" and x[1][0] == "call" and x[1][1].endswith("::next") and len(x[1][2]) == 1:
+        it = x[1][2][0]
+        if it[0] == "ref" and it[1][0] == "lv":
+            # idx[0] is the payload field 0 of Some
+            return it[1][1], idx[1:] if idx and idx[0] == 0 else None
+    return None
 
 
 def irange(e, B, tyof, env=None, depth=0):
@@ -145,6 +187,25 @@ def irange(e, B, tyof, env=None, depth=0):
         return None
     base = tyof(e)
     r = type_range(base) if base else None
+    if k == "call" and e[1].endswith("::leading_zeros") and len(e[2]) == 1:
+        inner = irange(e[2][0], B, tyof, env, depth + 1)
+        w = WIDTH.get(tyof(e[2][0]) or "u32", 32)
+        r = (0, w - 1) if inner is not None and inner[0] >= 1 else (0, w)
+    if k == "field" and e[2] == 0 and e[1][0] == "variant" and e[1][1][0] == "call" and e[1][1][1].endswith("::binary_search"):
+        # contract: Ok(i)/Err(i) with i <= len(slice); the slice is a window of a constant table
+        tabs = find_all(e[1][1][2][0], lambda x: x[0] == "table")
+        if tabs and TABLES[0] is not None:
+            vals = TABLES[0](tabs[0][1])
+            if vals:
+                r = (0, len(vals))
+    if k == "index" and e[1][0] == "table" and TABLES[0] is not None:
+        vals = TABLES[0](e[1][1])
+        if vals:
+            ir = irange(e[2], B, tyof, env, depth + 1)
+            if ir is not None and 0 <= ir[0] <= ir[1] < len(vals):
+                vals = vals[ir[0]:ir[1] + 1]
+            if vals and isinstance(vals[0], int):
+                r = (min(vals), max(vals))
     if k == "bin":
         a = irange(e[2], B, tyof, env, depth + 1)
         b = irange(e[3], B, tyof, env, depth + 1)
@@ -183,6 +244,18 @@ def irange(e, B, tyof, env=None, depth=0):
             r = tr
     lo = B.lo.get(e)
     hi = B.hi.get(e)
+    if depth < 6:
+        for (a_, b_, strict) in getattr(B, "rel", []):
+            if a_ == e and b_ != e and not find_all(b_, lambda x: x == e):
+                rb = irange(b_, B, tyof, env, depth + 8)
+                if rb is not None:
+                    v = rb[1] - (1 if strict else 0)
+                    hi = v if hi is None else min(hi, v)
+            if b_ == e and a_ != e and not find_all(a_, lambda x: x == e):
+                ra = irange(a_, B, tyof, env, depth + 8)
+                if ra is not None:
+                    v = ra[0] + (1 if strict else 0)
+                    lo = v if lo is None else max(lo, v)
     if r is None and (lo is not None or hi is not None):
         r = (0, (1 << 64) - 1)
     if r is not None:
@@ -193,7 +266,27 @@ def irange(e, B, tyof, env=None, depth=0):
 # ---------------------------------------------------------------- idioms
 
 
+def _table_values_factory(F):
+    cache = {}
+
+    def get(path):
+        if path not in cache:
+            c = F.consts.get(path)
+            vals = None
+            if c:
+                t = F.ty(c["ty"])
+                if t.get("k") == "array":
+                    es = {"u8": 1, "u16": 2, "u32": 4, "usize": 8, "u64": 8}.get(F.tys(t["elem"]))
+                    if es:
+                        vals = F.const_array(path, es)
+            cache[path] = vals
+        return cache[path]
+
+    return get
+
+
 def discharge(F, sites, envs):
+    TABLES[0] = _table_values_factory(F)
     by_fn = {}
     for s in sites:
         by_fn.setdefault(s.body.path, []).append(s)
@@ -214,6 +307,16 @@ def discharge(F, sites, envs):
                 extra += S.paths(entry=h)
             except sym.PathLimit:
                 pass
+        # iterator constructions seen on paths from the entry (used for loop-step paths walked from a header)
+        fb = {}
+        for p in paths:
+            for l, v in (p.env["locals"].items() if p.env else ()):
+                w = v
+                while w is not None and w[0] == "mutated":
+                    w = w[3] if len(w) > 3 else None
+                if v[0] == "mutated" and w is not None and w[0] == "call":
+                    fb.setdefault(l, n(w))
+        FALLBACK_ITER[0] = fb
         for s in ss:
             hit = 0
             for p in paths + extra:
@@ -221,6 +324,11 @@ def discharge(F, sites, envs):
                     continue
                 hit += 1
                 idiom = one(F, S, b, p, s, envs)
+                if not idiom:
+                    try:
+                        idiom = relational(F, S, b, p, s, envs)
+                    except RecursionError:
+                        idiom = None
                 if idiom:
                     s.idioms.add(idiom)
                 else:
@@ -242,10 +350,69 @@ def describe(S, p, s):
     return s.kind
 
 
-def tyof_factory(S, b):
+def strip_widening(S, e, depth=0):
+    """Remove IntToInt casts that cannot change the value (unsigned source no wider than the unsigned target);
+    narrowing or unknown casts are kept (they are opaque to the linear reasoning and sound for intervals)."""
+    if not isinstance(e, tuple) or not e or depth > 60:
+        return e
+    if isinstance(e[0], str):
+        if e[0] == "cast" and e[1] == "IntToInt":
+            inner = strip_widening(S, e[3], depth + 1)
+            if e[3][0] == "const" and WIDTH.get(e[2]) and 0 <= e[3][1] < (1 << WIDTH[e[2]]):
+                return inner
+            st = S.type_of(e[3])
+            sw = WIDTH.get(st["s"]) if st else None
+            tw = WIDTH.get(e[2])
+            if sw and tw and sw <= tw and st["s"].startswith("u") and e[2].startswith("u"):
+                return inner
+            return ("cast", e[1], e[2], inner)
+        return tuple(strip_widening(S, x, depth + 1) if isinstance(x, tuple) else x for x in e)
+    return tuple(strip_widening(S, x, depth + 1) if isinstance(x, tuple) else x for x in e)
+
+
+def pn(S, raw):
+    """Normal form used by the panic-site reasoning: value-preserving casts removed, others kept."""
+    return n(strip_widening(S, raw), keep_casts=True)
+
+
+def build_tymap(S, raws):
+    """normalised subexpression -> primitive type name, from the MIR types of the raw expressions."""
+    out = {}
+    seen = 0
+
+    def rec(x, depth):
+        nonlocal seen
+        if not isinstance(x, tuple) or not x or depth > 14 or seen > 4000:
+            return
+        if isinstance(x[0], str):
+            if x[0] in ("load", "call", "field", "index", "cindex", "param", "local", "lv", "val", "mutated", "bin", "cast"):
+                seen += 1
+                t = S.type_of(x)
+                if t is not None and t.get("s") in WIDTH:
+                    try:
+                        out[pn(S, x)] = t["s"]
+                    except Exception:
+                        pass
+            for y in x[1:]:
+                rec(y, depth + 1)
+        else:
+            for y in x:
+                rec(y, depth + 1)
+
+    for r_ in raws:
+        rec(r_, 0)
+    return out
+
+
+def tyof_factory(S, b, tymap=None):
     F = b.f
+    tymap = tymap or {}
 
     def tyof(e):
+        if e in tymap:
+            return tymap[e]
+        if e[0] == "local" and b.mir and e[1] < len(b.mir["locals"]):
+            return F.tys(b.mir["locals"][e[1]]["ty"])
         # types of a few leaf forms (parameters and their loads)
         if e[0] == "param":
             ins = b.d.get("inputs")
@@ -373,10 +540,28 @@ def cond_truth(e, B, tyof, env):
 def one(F, S, b, p, s, envs):
     t = s.term
     B = Bounds(S, p, s.bb)
-    tyof = tyof_factory(S, b)
+    raws = [d for (_, d, _, _) in p.conds] + [c for (bb_, _, c, _, _) in p.asserts if bb_ == s.bb] + [a for c in p.calls if c[0] == s.bb for a in c[2]]
+    tyof = tyof_factory(S, b, build_tymap(S, raws))
     LENOF[0] = lambda x, env: _slen(F, b, x, B, env, tyof)
+
+    def iter_ctor(local):
+        v = p.env["locals"].get(local) if p.env else None
+        while v is not None and v[0] == "mutated":
+            v = v[3] if len(v) > 3 else None
+        if v is None or v[0] in ("local",):
+            return FALLBACK_ITER[0].get(local)
+        return n(v)
+
+    ITER[0] = iter_ctor
     env_list = [e for _, e in envs] if envs else [None]
     generic_consts = [g["n"] for g in b.d.get("generics", []) if g["k"] == "const"]
+    if not generic_consts:
+        fixed = concrete_self_env(F, b)
+        if fixed:
+            env_list = [dict(e or {}, **fixed) for e in env_list]
+            # keep only variants consistent with the concrete arguments
+            keep = [e for e in env_list if all((dict(envs_by(e, envs)).get(k, v) == v) for k, v in fixed.items())]
+            env_list = keep or env_list
     if any(g not in common_names() for g in generic_consts):
         # functions generic over some other constant (e.g. N of the array codecs): try every variant value
         env_list = [dict((g, v) for g in generic_consts) for v in ALL_VALUES]
@@ -385,11 +570,17 @@ def one(F, S, b, p, s, envs):
         msg = None
         for (bb, kind, c, expected, m) in p.asserts:
             if bb == s.bb:
-                cond, msg = n(c, keep_casts=True), m
+                cond, msg = pn(S, c), m
         if cond is None:
             return None
         kind = t["msg"]["kind"]
         if kind in ("overflow", "overflow_neg"):
+            if cond[0] == "bin" and cond[1] in ("Lt", "Le", "Gt", "Ge"):
+                # shift-amount check: the comparison must be true on every variant
+                c2 = cond
+                if all(cond_truth(c2, B, tyof, env) is True for env in env_list):
+                    return "shift-amount-in-range"
+                return None
             if cond[0] != "ovf":
                 return None
             aty = operand_ty(b, t["msg"].get("a"))
@@ -399,28 +590,28 @@ def one(F, S, b, p, s, envs):
             expr = ("bin", cond[1], cond[2], cond[3])
             ok_all = True
             for env in env_list:
-                r = irange(n(expr), B, tyof, env)
+                r = irange(expr, B, tyof, env)
                 if r is None or r[0] < tr[0] or r[1] > tr[1]:
                     ok_all = False
             if ok_all:
                 return "interval-no-overflow"
             # relational: a - b with b <= a known
             if cond[1] == "Sub":
-                a_, b_ = n(cond[2]), n(cond[3])
+                a_, b_ = cond[2], cond[3]
                 for (x, y, strict) in B.rel:
                     if x == b_ and y == a_:
                         return "guarded-subtraction"
                 # MAX_LEN - len after `len >= MAX_LEN` returned
             return None
         if kind in ("div_zero", "rem_zero"):
-            c2 = n(cond)
+            c2 = cond
             if c2[0] == "bin" and c2[1] == "Eq":
                 d = c2[3] if c2[2] == C(0) else c2[2]
                 if all((irange(d, B, tyof, env) or (0, 0))[0] > 0 for env in env_list):
                     return "nonzero-divisor"
             return None
         if kind == "bounds":
-            c2 = n(cond)
+            c2 = cond
             if c2[0] != "bin" or c2[1] != "Lt":
                 return None
             index, ln = c2[2], c2[3]
@@ -439,6 +630,8 @@ def one(F, S, b, p, s, envs):
                         L = ex if ex is not None else lo
                         if L is None:
                             L = array_len_of(F, b, x, env)
+                        if L is None:
+                            L = _slen(F, b, x, B, env, tyof)
                 r = irange(index, B, tyof, env)
                 if L is None or r is None or r[1] >= L:
                     ok_all = False
@@ -452,7 +645,7 @@ def one(F, S, b, p, s, envs):
     if call is None:
         return None
     (bb, path, args, cj) = call
-    a = [n(x) for x in args]
+    a = [pn(S, x) for x in args]
     if s.kind == "index":
         base = a[0]
         rng = a[1]
@@ -562,6 +755,38 @@ def one(F, S, b, p, s, envs):
                     return "exact-size-conversion"
         return None
     return None
+
+
+def envs_by(e, envs):
+    """original (un-overridden) values of the variant env that `e` was derived from"""
+    for _, env in (envs or []):
+        if all(env.get(k) == e.get(k) for k in ("SIZE_CKSUM", "SIZE_BUCKETS", "SIZE_IN_BYTES") if k in env) :
+            return env.items()
+    return ()
+
+
+def concrete_self_env(F, b):
+    """{const param name: value} from the concrete generic arguments of the impl's self type
+    (e.g. impl FuzzyHashBody for FuzzyHashBodyData<64> binds SIZE_BODY = 64)."""
+    im = b.impl_info()
+    if not im or im.get("generics"):
+        return None
+    st = F.ty(im["self_ty"])
+    if not st or st.get("k") != "adt":
+        return None
+    a = None
+    for x in F.d["adts"]:
+        if x["path"] == st["path"]:
+            a = x
+    if a is None:
+        return None
+    out = {}
+    names = [g["n"] for g in a["generics"] if g["k"] != "lt"]
+    args = [x for x in st.get("args", []) if x.get("k") != "lt"]
+    for nm, arg in zip(names, args):
+        if arg.get("k") == "val":
+            out[nm] = arg["v"]
+    return out or None
 
 
 class B0:
@@ -683,6 +908,26 @@ def static_len(F, b, e, B, envs, tyof):
 
 
 def _slen(F, b, e, B, env, tyof):
+    ic = item_component(e) if e[0] == "field" else None
+    if ic is not None and ic[1] is not None and ITER[0] is not None:
+        comp = iter_components(ITER[0](ic[0]))
+        if comp and len(comp) == 1:
+            c = comp[0]
+            for i in ic[1]:
+                if c[0] == "zip" and i in (0, 1):
+                    c = c[1 + i]
+                else:
+                    c = None
+                    break
+            if c is not None and c[0] == "chunk":
+                if c[3]:
+                    return c[2]
+                total = _slen(F, b, c[1], B, env, tyof)
+                if total is not None and total % c[2] == 0:
+                    return c[2]
+        return None
+    if e[0] == "deref":
+        return _slen(F, b, e[1], B, env, tyof)
     if e[0] == "ref":
         inner = e[1]
         if inner[0] == "bytes" and inner[1] is not None:
@@ -716,6 +961,27 @@ def _slen(F, b, e, B, env, tyof):
                 if total is not None and a0 and a0[0] == a0[1]:
                     return total - a0[0]
             return None
+        # one-level callee summary: a local function whose single return value is a constant window
+        Fn = b.f.fn(e[1]) if hasattr(b.f, "fn") else None
+        if Fn is not None and Fn.mir is not None and depth_ok(e):
+            try:
+                rets = [q for q in sym.Sym(Fn).paths(max_paths=64) if q.end == "return"]
+            except sym.PathLimit:
+                rets = []
+            if len(rets) == 1:
+                re_ = n(rets[0].ret)
+                if re_[0] == "call" and re_[1].endswith(layout.INDEX_FNS) and len(re_[2]) == 2 and re_[2][1][0] == "agg":
+                    rk = re_[2][1][1].rsplit("::", 1)[-1]
+                    ops = re_[2][1][2]
+                    if rk == "RangeTo":
+                        v = layout.ceval(ops[0], env) if env is not None else (ops[0][1] if ops[0][0] == "const" else None)
+                        if v is not None:
+                            return v
+                    if rk == "Range":
+                        a0 = layout.ceval(ops[0], env) if env is not None else None
+                        b0 = layout.ceval(ops[1], env) if env is not None else None
+                        if a0 is not None and b0 is not None:
+                            return b0 - a0
         if e[1].endswith("::data") and len(e[2]) == 1:
             # accessor returning &[u8; K]: read K from the callee's return type via impl self
             if "FuzzyHashChecksumData" in e[1]:
@@ -734,6 +1000,10 @@ def _slen(F, b, e, B, env, tyof):
             v = ex
         return v
     return None
+
+
+def depth_ok(e):
+    return True
 
 
 def try_into_target_len(F, b, bb):
@@ -801,3 +1071,368 @@ def ordinal(s):
                 return k
             k += 1
     return k
+
+
+# ---------------------------------------------------------------- preconditions at call sites
+
+
+def _only_params(e):
+    bad = find_all(e, lambda x: x[0] in ("load", "local", "lv", "mutated", "field", "index", "deref", "cpath", "table")
+                   or (x[0] == "call" and not x[1].endswith("::len")))
+    return not bad
+
+
+def _subst(e, args):
+    if not isinstance(e, tuple):
+        return e
+    if e and e[0] == "param" and isinstance(e[1], int):
+        return args[e[1] - 1] if e[1] - 1 < len(args) else e
+    return tuple(_subst(x, args) if isinstance(x, tuple) else x for x in e)
+
+
+def select_order_known(a, b):
+    """a <= b from the post-condition of nested select_nth_unstable (left part <= pivot <= right part),
+    or both are equal constants (dummy quartiles)."""
+    if a[0] == "const" and b[0] == "const":
+        return a[1] <= b[1]
+    SEL = "core::slice::<impl [T]>::select_nth_unstable"
+
+    def pivot_of(x):
+        m = match(("load", ("deref", ("field", V("s"), 1))), x)
+        return m["s"] if m and m["s"][0] == "call" and m["s"][1] == SEL else None
+
+    sa, sb = pivot_of(a), pivot_of(b)
+    if sa is None or sb is None:
+        return False
+    # a's selection ran on the left part of b's selection => a <= b
+    if sa[2][0] == ("field", sb, 0):
+        return True
+    # b's selection ran on the right part of a's selection => a <= b
+    if sb[2][0] == ("field", sa, 2):
+        return True
+    return False
+
+
+def preconditions(F, G, sites, envs, depth_limit=3):
+    """Discharge explicit panics whose guarding conditions mention only the function's parameters by checking
+    every call site (transitively through callers whose arguments are again only parameters)."""
+    callers = {}
+    for b in F.bodies:
+        if not b.mir or b.kind not in ("Fn", "AssocFn", "Closure"):
+            continue
+        for i, t in b.calls():
+            cp = (t["callee"].get("resolved") or {}).get("path") or t["callee"].get("path")
+            callers.setdefault(cp, []).append((b, i))
+        for m in b.d.get("mono") or []:
+            for c in m["calls"]:
+                callers.setdefault(c["resolved"]["path"], []).append((b, c["bb"]))
+    cache = {}
+
+    def chains_ok(fpath, chains, depth):
+        """chains: list of [(cond, truth)] each leading to a panic; True if infeasible at every call site."""
+        if depth > depth_limit:
+            return False
+        cs = callers.get(fpath, [])
+        # trait-dispatched forwarding impls
+        if not cs:
+            return False
+        seen_any = False
+        for (cb, bb) in cs:
+            key = (cb.path, bb)
+            S = sym.Sym(cb)
+            try:
+                paths = S.paths()
+                hdrs = {p.blocks[-1] for p in paths if p.end == "loop"}
+                for h in hdrs:
+                    paths = paths + S.paths(entry=h)
+            except sym.PathLimit:
+                return False
+            fb = {}
+            for p in paths:
+                for l, v in (p.env["locals"].items() if p.env else ()):
+                    w = v
+                    while w is not None and w[0] == "mutated":
+                        w = w[3] if len(w) > 3 else None
+                    if v[0] == "mutated" and w is not None and w[0] == "call":
+                        fb.setdefault(l, n(w))
+            for p in paths:
+                call = [c for c in p.calls if c[0] == bb]
+                if not call:
+                    continue
+                seen_any = True
+                args = [n(a) for a in call[0][2]]
+                B = Bounds(S, p, bb)
+                raws = [d for (_, d, _, _) in p.conds] + list(call[0][2])
+                tyof = tyof_factory(S, cb, build_tymap(S, raws))
+
+                def ctor(local, p=p, fb=fb):
+                    v = p.env["locals"].get(local) if p.env else None
+                    while v is not None and v[0] == "mutated":
+                        v = v[3] if len(v) > 3 else None
+                    if v is None or v[0] == "local":
+                        return fb.get(local)
+                    return n(v)
+
+                ITER[0] = ctor
+                LENOF[0] = lambda x, env, cb=cb, B=B, tyof=tyof: _slen(F, cb, x, B, env, tyof)
+                env_list = [e for _, e in envs] if envs else [None]
+                for chain in chains:
+                    sub = [(_subst(c, args), t) for c, t in chain]
+                    infeasible = False
+                    undecided = []
+                    for c, t in sub:
+                        vs = [cond_truth(c, B, tyof, env) for env in env_list]
+                        if all(v is not None and v != t for v in vs):
+                            infeasible = True
+                            break
+                        if c[0] == "bin" and c[1] == "Le" and t is False and select_order_known(c[2], c[3]):
+                            infeasible = True
+                            break
+                        undecided.append((c, t))
+                    if infeasible:
+                        continue
+                    # push the obligation up if it only mentions the caller's parameters
+                    if all(_only_params(c) for c, t in undecided) and cb.kind != "Closure":
+                        if not chains_ok(cb.path, [undecided], depth + 1):
+                            return False
+                    else:
+                        return False
+        return seen_any
+
+    for s in sites:
+        if s.kind != "panic" or not s.undischarged:
+            continue
+        b = s.body
+        S = sym.Sym(b)
+        chains = []
+        okshape = True
+        for p in S.paths():
+            if s.bb not in p.blocks:
+                continue
+            chain = [(n(d), (taken == "otherwise") if vals == [0] else (bool(taken) if taken != "otherwise" else None)) for (_, d, taken, vals) in p.conds]
+            if any(t is None for _, t in chain) or not all(_only_params(c) for c, t in chain):
+                okshape = False
+            chains.append(chain)
+        if not okshape or not chains:
+            continue
+        if chains_ok(b.path, chains, 0):
+            s.undischarged = []
+            s.idioms.add("precondition-holds-at-every-call-site")
+
+
+# ---------------------------------------------------------------- linear relational reasoning
+
+SLICE_LEN = "core::slice::<impl [T]>::len"
+SYMLEN = [None]
+
+
+def lin(e, env, depth=0):
+    """Linear form (const, {atom: coef}) of a normalised integer expression; constants of the crate are
+    folded with `env`; anything non-linear is an atom."""
+    if depth > 40:
+        return (0, {e: 1})
+    k = e[0]
+    if k == "const":
+        return (e[1], {})
+    if k in ("cparam", "cpath"):
+        v = layout.ceval(e, env) if env is not None else None
+        if v is not None:
+            return (v, {})
+        return (0, {e: 1})
+    if k == "cast":
+        if e[1] != "IntToInt":
+            return lin(e[3], env, depth + 1)
+        return (0, {e: 1})
+    if k == "len":
+        return lin(("call", SLICE_LEN, (e[1],)), env, depth + 1)
+    if k == "call" and e[1] == SLICE_LEN and len(e[2]) == 1 and SYMLEN[0] is not None:
+        x = e[2][0]
+        if x[0] in ("call", "ref", "deref", "cast") and not (x[0] == "call" and not x[1].endswith(layout.INDEX_FNS)):
+            sl = SYMLEN[0](x, env)
+            if sl is not None and sl != e:
+                return lin(sl, env, depth + 1)
+    if k == "bin" and e[1] in ("Add", "Sub"):
+        a, b = lin(e[2], env, depth + 1), lin(e[3], env, depth + 1)
+        s = 1 if e[1] == "Add" else -1
+        d = dict(a[1])
+        for t, c in b[1].items():
+            d[t] = d.get(t, 0) + s * c
+            if d[t] == 0:
+                del d[t]
+        return (a[0] + s * b[0], d)
+    if k == "bin" and e[1] == "Mul" and e[2][0] == "const":
+        b = lin(e[3], env, depth + 1)
+        return (e[2][1] * b[0], {t: e[2][1] * c for t, c in b[1].items()})
+    return (0, {e: 1})
+
+
+def lin_sub(a, b):
+    d = dict(a[1])
+    for t, c in b[1].items():
+        d[t] = d.get(t, 0) - c
+        if d[t] == 0:
+            del d[t]
+    return (a[0] - b[0], d)
+
+
+def derived_rels(exprs):
+    """Facts that hold by the meaning of library calls: u32::try_from(x).unwrap_or(u32::MAX) <= x."""
+    out = []
+    for e in exprs:
+        for x in find_all(e, lambda y: y[0] == "call" and y[1].endswith("::unwrap_or") and len(y[2]) == 2 and y[2][1] == C(0xFFFFFFFF)
+                          and y[2][0][0] == "call" and y[2][0][1].endswith("::try_from") and len(y[2][0][2]) == 1):
+            out.append((x, x[2][0][2][0], False))
+    return out
+
+
+def le(e1, e2, B, env, tyof, rels=None, depth=2):
+    """e1 <= e2 from linear arithmetic, at most `depth` path facts, and intervals of the remaining atoms."""
+    d = lin_sub(lin(e2, env), lin(e1, env))
+    return nonneg(d, B, env, tyof, rels if rels is not None else list(B.rel), depth)
+
+
+def nonneg(d, B, env, tyof, rels, depth):
+    if not d[1]:
+        return d[0] >= 0
+    # interval of the remaining atoms
+    lo = d[0]
+    ok = True
+    for t, c in d[1].items():
+        r = irange(t, B, tyof, env)
+        if r is None:
+            ok = False
+            break
+        lo += c * (r[0] if c > 0 else r[1])
+    if ok and lo >= 0:
+        return True
+    if depth <= 0:
+        return False
+    for (a, b, strict) in rels:
+        g = lin_sub(lin(b, env), lin(a, env))  # >= s
+        if not g[1]:
+            continue
+        s = 1 if strict else 0
+        d2 = lin_sub(d, g)
+        # use the fact only if it removes at least one atom
+        if len(d2[1]) < len(d[1]) or (set(d2[1]) != set(d[1])):
+            if nonneg((d2[0] + s, d2[1]), B, env, tyof, rels, depth - 1):
+                return True
+    return False
+
+
+def symlen(F, b, e, env):
+    """Symbolic length (normalised expression) of a slice-valued expression, or None."""
+    k = e[0]
+    if k in ("param", "local"):
+        v = array_len_of(F, b, e, env) if k == "param" else None
+        return C(v) if v is not None else ("call", SLICE_LEN, (e,))
+    if k == "cast":
+        return symlen(F, b, e[3], env)
+    if k == "deref":
+        return symlen(F, b, e[1], env)
+    if k == "ref":
+        inner = e[1]
+        if inner[0] == "field":
+            v = field_array_len(F, b, inner, env)
+            return C(v) if v is not None else None
+        if inner[0] == "bytes" and inner[1] is not None:
+            return C(len(inner[1]) // 2)
+        if inner[0] in ("lv", "mutated"):
+            l = inner[1] if inner[0] == "lv" else (inner[1][1] if isinstance(inner[1], tuple) else inner[1])
+            v = local_array_len(F, b, l, env)
+            return C(v) if v is not None else None
+        if inner[0] == "index" and inner[1][0] == "table":
+            v = _slen(F, b, e, B0(), env, lambda x: None)
+            return C(v) if v is not None else None
+        return symlen(F, b, inner, env)
+    if k == "call" and e[1].endswith(layout.INDEX_FNS) and len(e[2]) == 2 and e[2][1][0] == "agg":
+        rk = e[2][1][1].rsplit("::", 1)[-1]
+        ops = e[2][1][2]
+        if rk == "Range":
+            return ("bin", "Sub", ops[1], ops[0])
+        if rk == "RangeTo":
+            return ops[0]
+        if rk == "RangeFrom":
+            base = symlen(F, b, e[2][0], env)
+            return ("bin", "Sub", base, ops[0]) if base is not None else None
+        if rk == "RangeFull":
+            return symlen(F, b, e[2][0], env)
+    v = _slen(F, b, e, B0(), env, lambda x: None)
+    return C(v) if v is not None else None
+
+
+def relational(F, S, b, p, s, envs):
+    """Second-chance idioms based on linear relations between path facts."""
+    t = s.term
+    B = Bounds(S, p, s.bb)
+    raws = [d for (_, d, _, _) in p.conds] + [c for (bb_, _, c, _, _) in p.asserts if bb_ == s.bb] + [a for c in p.calls if c[0] == s.bb for a in c[2]]
+    tyof = tyof_factory(S, b, build_tymap(S, raws))
+    LENOF[0] = lambda x, env: _slen(F, b, x, B, env, tyof)
+    env_list = [e for _, e in envs] if envs else [None]
+    SYMLEN[0] = lambda x, env: symlen(F, b, x, env)
+    conds_n = [pn(S, d) for (_, d, _, _) in p.conds]
+    if t["t"] == "assert":
+        cond = None
+        for (bb, kind, c, expected, m) in p.asserts:
+            if bb == s.bb:
+                cond = pn(S, c)
+        if cond is None or cond[0] != "ovf" or t["msg"]["kind"] != "overflow":
+            return None
+        aty = operand_ty(b, t["msg"].get("a"))
+        tr = type_range(aty) if aty else None
+        if tr is None:
+            return None
+        expr = ("bin", cond[1], cond[2], cond[3])
+        for env in env_list:
+            rels = list(B.rel) + derived_rels(conds_n + [expr])
+            if not (le(C(0), expr, B, env, tyof, rels) and le(expr, C(tr[1]), B, env, tyof, rels)):
+                return None
+        return "linear-relational-no-overflow"
+    call = None
+    for c in p.calls:
+        if c[0] == s.bb:
+            call = c
+    if call is None:
+        return None
+    a = [pn(S, x) for x in call[2]]
+    if s.kind == "index" and a[1][0] == "agg":
+        rk = a[1][1].rsplit("::", 1)[-1]
+        ops = a[1][2]
+        for env in env_list:
+            L = symlen(F, b, a[0], env)
+            if L is None:
+                return None
+            rels = list(B.rel) + derived_rels(conds_n + list(a))
+            if rk == "Range":
+                good = le(ops[0], ops[1], B, env, tyof, rels) and le(ops[1], L, B, env, tyof, rels)
+            elif rk == "RangeFrom":
+                good = le(ops[0], L, B, env, tyof, rels)
+            elif rk == "RangeTo":
+                good = le(ops[0], L, B, env, tyof, rels)
+            else:
+                good = rk == "RangeFull"
+            if not good:
+                return None
+        return "linear-relational-window"
+    if s.kind == "call" and s.what == "copy_from_slice":
+        for env in env_list:
+            l1, l2 = symlen(F, b, a[0], env), symlen(F, b, a[1], env)
+            if l1 is None or l2 is None:
+                return None
+            d = lin_sub(lin(l1, env), lin(l2, env))
+            if d != (0, {}):
+                return None
+        return "equal-symbolic-lengths"
+    if s.kind == "call" and s.what == "copy_within" and a[1][0] == "agg":
+        rk = a[1][1].rsplit("::", 1)[-1]
+        ops = a[1][2]
+        for env in env_list:
+            L = symlen(F, b, a[0], env)
+            if L is None or rk != "RangeFrom":
+                return None
+            rels = list(B.rel)
+            count = ("bin", "Sub", L, ops[0])
+            if not (le(ops[0], L, B, env, tyof, rels) and le(("bin", "Add", a[2], count), L, B, env, tyof, rels)):
+                return None
+        return "linear-relational-copy-within"
+    return None
